@@ -26,13 +26,16 @@ import json
 import random
 import re
 import sys
+import threading
 import typing as T
 from concurrent.futures import ProcessPoolExecutor
 
+from . import cmdsubst_projects as cproj
 from . import common
 from .common import Check, MachineryError, SPECS, run_tlc, scratch
 
 PROP = 'X02'
+LOCK = threading.Lock()
 FAM = SPECS / 'cmdsubst'
 
 # ---------------------------------------------------------------------------
@@ -202,7 +205,7 @@ def subst_shape(word: str, ni: int, no: int) -> str:
         n = ni if name in ('INPUT', 'PLAINNAME', 'BASENAME') else no
         return '<' + name + ('i' if int(dg) < n else 'I') + '>'
     s = re.sub(r'@(INPUT|OUTPUT|PLAINNAME|BASENAME)([0-9]*)@', rep, word)
-    s = re.sub(r'@(OUTDIR|DEPFILE|PRIVATE_DIR|SOURCE_ROOT|BUILD_ROOT|CURRENT_SOURCE_DIR)@', r'<\1>', s)
+    s = re.sub(r'@(OUTDIR|DEPFILE|PRIVATE_DIR|SOURCE_ROOT|BUILD_ROOT|CURRENT_SOURCE_DIR|SOURCE_DIR|BUILD_DIR|EXTRA_ARGS)@', r'<\1>', s)
     return re.sub(r'[^<>]+(?=<|$)|(?<=>)[^<>]+', '_', s) if '<' in s else '_'
 
 
@@ -233,12 +236,13 @@ def subst_signature(c: T.Dict[str, T.Any], v: T.Dict[str, T.Any]) -> T.Union[str
 
 def judge(chk: Check, module: str, cases: T.List[T.Dict[str, T.Any]], label: str,
           sig: T.Callable[[T.Dict[str, T.Any], T.Dict[str, T.Any]], T.Union[str, T.List[str]]], drop: T.Sequence[str] = (),
-          nproc: int = 3, skip_unspecified: bool = False) -> int:
+          nproc: int = 0, skip_unspecified: bool = False) -> int:
     """Validate recorded executions with a TLC trace spec; split over a few TLC processes (JSON load is serial)."""
     if not cases:
         return 0
     skipped = 0
     by_id = {c['id']: c for c in cases}
+    nproc = nproc or min(6, len(cases) // 4000 + 1)
     size = max(1, (len(cases) + nproc - 1) // nproc)
     parts = list(common.chunks(cases, size))
 
@@ -247,7 +251,7 @@ def judge(chk: Check, module: str, cases: T.List[T.Dict[str, T.Any]], label: str
             tf = d / 'cases.json'
             tf.write_text(json.dumps([{k: v for k, v in c.items() if k not in drop} for c in part]))
             return run_tlc(FAM, module, env={'TRACE_FILE': str(tf)}, timeout=3000,
-                           workers=max(2, common.NCPU // len(parts)))
+                           workers=3)
     from concurrent.futures import ThreadPoolExecutor
     with ThreadPoolExecutor(max_workers=len(parts)) as ex:
         results = list(ex.map(run, parts))
@@ -256,8 +260,9 @@ def judge(chk: Check, module: str, cases: T.List[T.Dict[str, T.Any]], label: str
             raise MachineryError(f'{module} did not complete cleanly:\n' + res.stdout[-2500:])
         if res.distinct != 2 * len(part):
             raise MachineryError(f'{module} judged {res.distinct // 2} of {len(part)} cases')
-        chk.add_tlc(f'{module}[{label}#{n}]', res, model=False)
-        chk.traces += len(part)
+        with LOCK:
+            chk.add_tlc(f'{module}[{label}#{n}]', res, model=False)
+            chk.traces += len(part)
         for v in res.json_lines():
             c = by_id.get(v['id'], {})
             if v['clause'] == 'Unspecified' and skip_unspecified:
@@ -267,11 +272,17 @@ def judge(chk: Check, module: str, cases: T.List[T.Dict[str, T.Any]], label: str
                 raise MachineryError(f'generator produced an input outside the rule book: {v} {c}')
             sg = sig(c, v)
             for one in ([sg] if isinstance(sg, str) else sg):
-                chk.violation(one, {'verdict': v, 'case': c})
+                with LOCK:
+                    chk.violation(one, {'verdict': v, 'case': c})
     return skipped
 
 
 def account_subst(chk: Check, cases: T.List[T.Dict[str, T.Any]]) -> None:
+    with LOCK:
+        _account_subst(chk, cases)
+
+
+def _account_subst(chk: Check, cases: T.List[T.Dict[str, T.Any]]) -> None:
     chk.evaluations += len(cases)
     for c in cases:
         if c['k'] == 'subst' and any('@' in w for w in c['cmd']):
@@ -282,24 +293,40 @@ def account_subst(chk: Check, cases: T.List[T.Dict[str, T.Any]]) -> None:
 
 
 def part1_inprocess(chk: Check, ex: ProcessPoolExecutor, quick: bool) -> None:
-    n_mc = 2
-    cfg = ('SPECIFICATION Spec\nCONSTANTS MaxLen = %d\n' % n_mc +
-           ''.join(f'INVARIANT {x}\n' for x in ('ErrorIffDocumented', 'NoPlaceholderLeft', 'Idempotent', 'WordCount',
-                                                'PlainPreserved', 'WordLocal', 'PrefixStable', 'DictFunctional',
-                                                'DictMatchesRules', 'DictMatchesValues')) +
-           'CHECK_DEADLOCK FALSE\nPOSTCONDITION Export\n')
-    res = run_tlc(FAM, 'CmdSubst_MC', cfg_text=cfg, collect=['space.json'], timeout=3000, allow_violation=False)
-    chk.add_tlc(f'CmdSubst_MC[MaxLen={n_mc}]', res)
-    space = json.loads(res.collected['space.json'])
-    chk.extra['subst_alphabet_words'] = len(space['alphabet'])
-    chk.extra['subst_file_shapes'] = len(space['inputs']) * len(space['outputs'])
-    ncfg = len(space['inputs']) * len(space['outputs'])
+    # full word alphabet for short commands, one representative per kind of word for longer ones
+    runs = [(1, False), (2, True)] if quick else [(2, False), (3, True)]
+    invs = ('ErrorIffDocumented', 'NoPlaceholderLeft', 'Idempotent', 'WordCount', 'PlainPreserved', 'WordLocal',
+            'PrefixStable', 'DictFunctional', 'DictMatchesRules', 'DictMatchesValues')
+
+    def mc(run: T.Tuple[int, bool]) -> common.TLCResult:
+        n, red = run
+        cfg = (f'SPECIFICATION Spec\nCONSTANTS MaxLen = {n}\n Reduced = {"TRUE" if red else "FALSE"}\n' +
+               ''.join(f'INVARIANT {x}\n' for x in invs) + 'CHECK_DEADLOCK FALSE\nPOSTCONDITION Export\n')
+        return run_tlc(FAM, 'CmdSubst_MC', cfg_text=cfg, collect=['space.json'], timeout=3000, allow_violation=False,
+                       workers=max(2, common.NCPU // 4))
+    from concurrent.futures import ThreadPoolExecutor
+    with ThreadPoolExecutor(max_workers=2) as tex:
+        results = list(tex.map(mc, runs))
     cases: T.List[T.Dict[str, T.Any]] = []
-    for n in range(0, n_mc + 1):
-        total = ncfg * len(space['alphabet']) ** n
-        step = max(1, min(4000, total // (common.NCPU * 2) + 1))
-        for part in ex.map(_worker_subst_enum, [(space, n, lo, min(total, lo + step)) for lo in range(0, total, step)]):
-            cases.extend(part)
+    seen: T.Set[str] = set()
+    for (n_mc, red), res in zip(runs, results):
+        with LOCK:
+            chk.add_tlc(f'CmdSubst_MC[MaxLen={n_mc},Reduced={red}]', res)
+        space = json.loads(res.collected['space.json'])
+        with LOCK:
+            chk.extra['subst_alphabet_words_' + ('reduced' if red else 'full')] = len(space['alphabet'])
+            chk.extra['subst_file_shapes'] = len(space['inputs']) * len(space['outputs'])
+        ncfg = len(space['inputs']) * len(space['outputs'])
+        for n in range(0, n_mc + 1):
+            total = ncfg * len(space['alphabet']) ** n
+            step = max(1, min(4000, total // (common.NCPU * 2) + 1))
+            for part in ex.map(_worker_subst_enum, [(space, n, lo, min(total, lo + step)) for lo in range(0, total, step)]):
+                for c in part:
+                    key = json.dumps([c['ins'], c['outs'], c['cmd']])
+                    if key not in seen:     # the reduced space overlaps the full one on short commands
+                        seen.add(key)
+                        c['id'] = ('R' if red else 'F') + c['id']
+                        cases.append(c)
     # the dictionary and the generator name rules for every file shape of the model
     common.use_repo_meson()
     from mesonbuild import mesonlib as ml, build
@@ -317,7 +344,7 @@ def part1_inprocess(chk: Check, ex: ProcessPoolExecutor, quick: bool) -> None:
     account_subst(chk, cases)
     judge(chk, 'TraceCmdSubst', cases, 'A', subst_signature, drop=('what',))
 
-    n_rand = 4000 if quick else 120000
+    n_rand = 3000 if quick else 120000
     step = max(1, n_rand // (common.NCPU * 2))
     cases = []
     for part in ex.map(_worker_subst_rand, [(lo, min(n_rand, lo + step), chk.seed) for lo in range(0, n_rand, step)]):
@@ -454,6 +481,11 @@ def depfile_signature(c: T.Dict[str, T.Any], v: T.Dict[str, T.Any]) -> T.List[st
 
 
 def account_dep(chk: Check, cases: T.List[T.Dict[str, T.Any]]) -> None:
+    with LOCK:
+        _account_dep(chk, cases)
+
+
+def _account_dep(chk: Check, cases: T.List[T.Dict[str, T.Any]]) -> None:
     chk.evaluations += len(cases)
     for c in cases:
         txt = '\n'.join(c['lines'])
@@ -466,13 +498,21 @@ def account_dep(chk: Check, cases: T.List[T.Dict[str, T.Any]]) -> None:
 
 def part2_depfile(chk: Check, ex: ProcessPoolExecutor, quick: bool) -> None:
     n_mc = 3 if quick else 4
-    cfg = ('SPECIFICATION Spec\nCONSTANTS MaxLines = %d\n' % n_mc +
-           ''.join(f'INVARIANT {x}\n' for x in ('TwoFormulations', 'NamesNonEmpty', 'Compositional', 'BlankLinesIgnored',
-                                                'ClosureIsLeastFixpoint', 'ClosureIdempotent', 'ClosureMonotone',
-                                                'ClosureOrderIndependent', 'LeavesAndCycles')) +
-           'CHECK_DEADLOCK FALSE\nPOSTCONDITION Export\n')
-    res = run_tlc(FAM, 'DepFile_MC', cfg_text=cfg, collect=['lines.json'], timeout=3000, allow_violation=False)
-    chk.add_tlc(f'DepFile_MC[MaxLines={n_mc}]', res)
+    parts = 2 if quick else 6
+    invs = ('TwoFormulations', 'NamesNonEmpty', 'Compositional', 'BlankLinesIgnored', 'ClosureIsLeastFixpoint',
+            'ClosureIdempotent', 'ClosureMonotone', 'ClosureOrderIndependent', 'LeavesAndCycles')
+
+    def mc(part: int) -> common.TLCResult:
+        cfg = (f'SPECIFICATION Spec\nCONSTANTS MaxLines = {n_mc}\n Parts = {parts}\n PartNo = {part}\n' +
+               ''.join(f'INVARIANT {x}\n' for x in invs) + 'CHECK_DEADLOCK FALSE\nPOSTCONDITION Export\n')
+        return run_tlc(FAM, 'DepFile_MC', cfg_text=cfg, collect=['lines.json'], timeout=6000, allow_violation=False, workers=3)
+    from concurrent.futures import ThreadPoolExecutor
+    with ThreadPoolExecutor(max_workers=parts) as tex:
+        results = list(tex.map(mc, range(parts)))
+    for n, res in enumerate(results):
+        with LOCK:
+            chk.add_tlc(f'DepFile_MC[MaxLines={n_mc},part {n}/{parts}]', res)
+    res = results[0]
     alpha = json.loads(res.collected['lines.json'])
     chk.extra['depfile_alphabet_lines'] = len(alpha)
     cases: T.List[T.Dict[str, T.Any]] = []
@@ -486,7 +526,7 @@ def part2_depfile(chk: Check, ex: ProcessPoolExecutor, quick: bool) -> None:
     skipped = judge(chk, 'TraceDepFile', cases, 'A', depfile_signature, skip_unspecified=True)
     chk.extra['depfile_A_outside_rule_book_skipped'] = skipped
     chk.extra['depfile_A_judged'] = len(cases) - skipped
-    n_rand = 1500 if quick else 40000
+    n_rand = 600 if quick else 30000
     step = max(1, n_rand // (common.NCPU * 2))
     cases = []
     for part in ex.map(_worker_dep_rand, [(lo, min(n_rand, lo + step), chk.seed) for lo in range(0, n_rand, step)]):
@@ -495,25 +535,196 @@ def part2_depfile(chk: Check, ex: ProcessPoolExecutor, quick: bool) -> None:
     judge(chk, 'TraceDepFile', cases, 'B', depfile_signature)
 
 
+# ---------------------------------------------------------------------------
+# part 1, binding B2: real projects
+
+
+def _worker_project(args: T.Tuple[int, int, str, int]) -> T.Tuple[T.List[T.Dict[str, T.Any]], T.Dict[str, T.Any]]:
+    sd, j, mode, size = args
+    rnd = random.Random(sd * 611953 + j * 31 + (7 if mode == 'invalid' else 0))
+    items: T.List[T.Dict[str, T.Any]] = []
+    if mode == 'valid':
+        for n in range(size):
+            kind = rnd.choice(['ct', 'ct', 'ct', 'gen', 'cf'])
+            mk = {'ct': cproj.gen_ct, 'gen': cproj.gen_gen, 'cf': cproj.gen_cf}[kind]
+            items.append(mk(rnd, f'{j}x{n}', rnd.choice(cproj.SUBDIRS), True))
+    else:
+        kind = rnd.choice(['ct', 'ct', 'gen', 'cf'])
+        mk = {'ct': cproj.gen_ct, 'gen': cproj.gen_gen, 'cf': cproj.gen_cf}[kind]
+        items.append(mk(rnd, f'{j}i', rnd.choice(cproj.SUBDIRS), False))
+
+    def run(its: T.List[T.Dict[str, T.Any]]) -> T.Tuple[T.Any, T.List[T.Dict[str, T.Any]]]:
+        with scratch('x02p-') as root:
+            for it in its:
+                if it['k'] == 'cf' and it['hasdep']:
+                    cproj.prepare_cf_depfile(rnd, root, it, dep_escape)
+            cproj.write_project(root, its)
+            return cproj.configure_and_observe(root, its)
+    res, cases = run(items)
+    meta = {'setups': 1, 'failed_batches': 0, 'error': '' if res.ok else res.error_text}
+    if not res.ok and len(items) > 1:
+        # a failing batch says nothing about its members: configure every definition on its own
+        meta['failed_batches'] = 1
+        cases = []
+        for it in items:
+            r1, c1 = run([it])
+            meta['setups'] += 1
+            cases.extend(c1)
+    for c in cases:
+        c['id'] = f"P{mode[0]}{j}:{len(cases)}:{id(c) % 1000}"
+    for n, c in enumerate(cases):
+        c['id'] = f'P{mode[0]}{j}:{n}'
+        c['why'] = meta['error'][:300] if not c.get('ok', True) else ''
+    return cases, meta
+
+
+def project_signature(c: T.Dict[str, T.Any], v: T.Dict[str, T.Any]) -> T.Union[str, T.List[str]]:
+    k = c.get('k', '?')
+    cl = v['clause']
+    if k in ('ct', 'cf'):
+        Tdef = c['T']
+        ni, no = len(Tdef['ins']), len(Tdef['outs'])
+        shapes = ' '.join(subst_shape(w, ni, no) for w in Tdef['cmd'])
+        if cl == 'ErrorExpected':
+            return [f'{k}:error-expected:{r}' for r in sorted(set(v['rules']))]
+        if cl in ('UnexpectedError', 'Command'):
+            return f'{k}:{cl.lower()}:ni={cls(ni)},no={cls(no)}:{shapes}'
+        if cl == 'Crash':
+            # a traceback instead of a diagnosis; named after the rules the definition breaks (none: a legal definition)
+            return f"{k}:crash:{','.join(sorted(set(v['rules']))) or 'legal:' + shapes}"
+        return f"{k}:{cl.lower()}:sd={'top' if not c['L']['sd'] else 'sub'}"
+    if k == 'gen':
+        G = c['G']
+        shapes = ' '.join(subst_shape(w, 1, len(G['outs'])) for w in G['args'])
+        if cl == 'ErrorExpected':
+            return [f'gen:error-expected:{r}' for r in sorted(set(v['rules']))]
+        if cl == 'Crash':
+            return f"gen:crash:{','.join(sorted(set(v['rules']))) or 'legal:' + shapes}"
+        if cl in ('UnexpectedError', 'GenCommand'):
+            return f"gen:{cl.lower()}:no={cls(len(G['outs']))}:{shapes}"
+        return f'gen:{cl.lower()}'
+    if k == 'cfdep':
+        return [f'cfdep:{x.lower()}' for x in v['clauses']]
+    return f'{k}:{cl}'
+
+
+def part3_projects(chk: Check, ex: ProcessPoolExecutor, quick: bool) -> None:
+    n_mc = 1 if quick else 2
+    cfg = ('SPECIFICATION Spec\nCONSTANTS MaxLen = %d\n' % n_mc +
+           ''.join(f'INVARIANT {x}\n' for x in ('OnePassEqualsTwoStage', 'RelativeIsAllowed', 'AbsoluteRootsAllowed',
+                                                'ConservativeExtension', 'NoLayoutPlaceholderLeft', 'OutputNamesDecide')) +
+           'CHECK_DEADLOCK FALSE\n')
+    res = run_tlc(FAM, 'CmdBackend_MC', cfg_text=cfg, timeout=3000, allow_violation=False, workers=4)
+    with LOCK:
+        chk.add_tlc(f'CmdBackend_MC[MaxLen={n_mc}]', res)
+    n_valid, size, n_invalid = (6, 10, 12) if quick else (60, 14, 120)
+    jobs = [(chk.seed, j, 'valid', size) for j in range(n_valid)] + [(chk.seed, j, 'invalid', 1) for j in range(n_invalid)]
+    cases: T.List[T.Dict[str, T.Any]] = []
+    setups = failed = 0
+    for cs, meta in ex.map(_worker_project, jobs):
+        cases.extend(cs)
+        setups += meta['setups']
+        failed += meta['failed_batches']
+    with LOCK:
+        chk.extra['project_setups'] = setups
+        chk.extra['project_batches_split_after_failure'] = failed
+        chk.extra['project_records'] = {k: sum(1 for c in cases if c['k'] == k) for k in ('ct', 'gen', 'cf', 'cfdep')}
+        chk.extra['project_records_expected_to_fail_setup'] = sum(1 for c in cases if not c.get('ok', True))
+        chk.evaluations += len(cases)
+        for c in cases:
+            if c['k'] in ('ct', 'cf'):
+                chk.nontriv(f"{c['k']}/{c['ok']}/" + ' '.join(subst_shape(w, len(c['T']['ins']), len(c['T']['outs'])) for w in c['T']['cmd']))
+            elif c['k'] == 'gen':
+                chk.nontriv(f"gen/{c['ok']}/" + ' '.join(subst_shape(w, 1, len(c['G']['outs'])) for w in c['G']['args']))
+        for c in [c for c in cases if c['k'] == 'ct' and c['ok']][:1] + [c for c in cases if c['k'] == 'gen' and c['ok']][:1]:
+            chk.sample({k: v for k, v in c.items() if k != 'dirs'}, limit=12)
+    proj = [c for c in cases if c['k'] != 'cfdep']
+    judge(chk, 'TraceCmdProject', proj, 'B2', project_signature, drop=('why', 'sub', 'ran'), nproc=1 if quick else 6)
+    judge(chk, 'TraceDepFile', [c for c in cases if c['k'] == 'cfdep'], 'B2dep', project_signature, nproc=1)
+
+
 def main(chk: Check) -> None:
     quick = chk.tier == 'quick'
     chk.rule = ('subst: distinct (input-count class, output-count class, outcome, command shape) with at least one "@" '
                 'word, shape = placeholders kept, literal text erased, indexes classed in/out of range; '
                 'depfile: distinct line-shape sequences containing an escape, continuation, several targets or a cycle')
-    with ProcessPoolExecutor(max_workers=common.NCPU) as ex:
-        part1_inprocess(chk, ex, quick)
-        part2_depfile(chk, ex, quick)
+    # the three parts are independent; they run side by side (TLC scales poorly beyond a few workers on string-heavy
+    # specifications, so several small TLC processes are used instead of one big one)
+    from concurrent.futures import ThreadPoolExecutor
+    with ProcessPoolExecutor(max_workers=common.NCPU) as ex, ThreadPoolExecutor(max_workers=3) as tex:
+        futs = [tex.submit(fn, chk, ex, quick) for fn in (part3_projects, part1_inprocess, part2_depfile)]
+        errs = []
+        for f in futs:
+            try:
+                f.result()
+            except Exception as e:   # let the other parts finish, then report the first failure
+                errs.append(e)
+        if errs:
+            raise errs[0]
     chk.exhaustive = True
+    chk.assumptions += [
+        'subst: command words in which two placeholder readings share an "@" ("@INPUT@OUTPUT@") are outside the rule book '
+        '(documentation silent); indexes are written without leading zeros; input names do not begin with "." and no name '
+        'ends in "/"; all outputs of one target lie in the same directory (@OUTDIR@ is documented as "the" directory); file '
+        'names contain no "@" except the pinned name "x@IN" of test cases/common/160 and one "at@..." shape',
+        'subst: error messages are not compared, only error / no error; a Python exception other than MesonException is a crash',
+        'projects: ninja backend only (paths relative to the build root or absolute are both accepted, directories with or '
+        'without a trailing "/"); the name of the private directory is not documented: it must be an existing directory of '
+        'the build tree and the same in every word of a command; custom_target(depfile:) with @BASENAME@/@PLAINNAME@ is only '
+        'generated with exactly one input; generator(): @DEPFILE@ without depfile:, @EXTRA_ARGS@ inside a larger word, '
+        '@SOURCE_ROOT@/@BUILD_ROOT@/@OUTDIR@/@INPUTn@ in generator arguments and preserve_path_from are not generated; '
+        'configure_file(command:): only the file-derived placeholders and @DEPFILE@ (layout placeholders are documented for '
+        'custom_target only), backslashes not generated, paths must be absolute, the depfile may lie anywhere in the build tree',
+        'projects: indexed placeholders out of range inside a word after another placeholder of the same family, and '
+        '@PLAINNAMEn@/@BASENAMEn@ out of range, are exercised in-process only (known findings), not through meson setup',
+        'depfile: tabs, CR, comments, a second ":" in a rule, rule lines without ":", "$" directly before a blank / newline / '
+        '":" / backslash and a backslash at the very end of the file are outside the rule book (make/GCC syntax either forbids '
+        'them or the pinned tests do not decide); the order of the list returned by get_all_dependencies is not compared',
+        'depfile end to end (configure_file): prerequisites are absolute paths below the source tree; only existence in '
+        'meson-info/intro-buildsystem_files.json is observed',
+    ]
 
 
 def replay(chk: Check, data: T.Dict[str, T.Any]) -> None:
+    """Re-run the recorded input through the current tree and judge it again."""
     common.use_repo_meson()
-    from mesonbuild import mesonlib as ml
+    from mesonbuild import mesonlib as ml, build, depfile as dm
     c = data['detail']['case']
-    if c.get('k') == 'subst':
+    k = c.get('k')
+    rnd = random.Random(data.get('seed', 0))
+    if k == 'subst':
         n = subst_case(ml, c['ins'], c['outs'], c['cmd'])
         n['id'] = 'replay'
         judge(chk, 'TraceCmdSubst', [n], 'replay', subst_signature)
+    elif k == 'dict':
+        n = dict_case(ml, c['ins'], c['outs'])
+        n['id'] = 'replay'
+        judge(chk, 'TraceCmdSubst', [n], 'replay', subst_signature)
+    elif k == 'name':
+        ns = [x for x in name_cases(build, c['t'], c['i']) if x['what'] == c.get('what')]
+        for x in ns:
+            x['id'] = 'replay'
+        judge(chk, 'TraceCmdSubst', ns, 'replay', subst_signature, drop=('what',))
+    elif k == 'depfile':
+        n = depfile_case(dm, c['lines'], rnd)
+        n['id'] = 'replay'
+        judge(chk, 'TraceDepFile', [n], 'replay', depfile_signature)
+    elif k in ('ct', 'cf', 'gen'):
+        d = c['T'] if k != 'gen' else c['G']
+        it = dict(d, k=k, name='replay0', sd=c['L']['sd'])
+        if k == 'gen':
+            it['inputs'] = [c['input']]
+        if k == 'cf':
+            it.update(deplines=[], depexist=[], depnames=[])
+        with scratch('x02p-') as root:
+            if k == 'cf' and it['hasdep']:
+                cproj.prepare_cf_depfile(rnd, root, it, dep_escape)
+            cproj.write_project(root, [it])
+            _, cases = cproj.configure_and_observe(root, [it])
+        for n, x in enumerate(cases):
+            x['id'] = f'replay{n}'
+        judge(chk, 'TraceCmdProject', [x for x in cases if x['k'] != 'cfdep'], 'replay', project_signature, drop=('why', 'sub', 'ran'))
+        judge(chk, 'TraceDepFile', [x for x in cases if x['k'] == 'cfdep'], 'replay', project_signature)
     else:
         raise MachineryError('replay of this record kind is done by re-running the check with the recorded seed')
 
